@@ -67,6 +67,32 @@ func BasePrograms() []*Program {
 			},
 		})
 	}
+	// A5: a Flush whose caller gives up (context cancelled) while its request is queued behind a wedged data flush, then -
+	// once that flush has completed and the next one is wedged - another Flush from the same client: it must wait for the
+	// batch accepted before it, whatever became of the abandoned request's acknowledgement
+	for _, kind := range []string{"create", "close", "update"} {
+		ps = append(ps, &Program{
+			Name: "A5-abandoned-flush-" + kind,
+			Cfg:  Cfg{IBS: 2, MBRows: 1},
+			Calls: []Call{rowsCall(1, "buf", 1, 1), {ID: 2, Kind: "force", Chan: "buf"}, rowsCall(3, "buf", 1, 1),
+				{ID: 4, Kind: "force", Chan: "buf"}, rowsCall(5, "buf", 1, 1), {ID: 6, Kind: "force", Chan: "buf"}},
+			Faults: []Fault{{Kind: kind, Nth: 1, Mode: "wedge"}, {Kind: kind, Nth: 2, Mode: "wedge"}, {Kind: kind, Nth: 3, Mode: "wedge"}},
+			Phases: [][]Op{
+				{{Op: "start"}},
+				{calls("c1", 1)},
+				{calls("c2", 2)},
+				{calls("c1", 3)},
+				{{Op: "cancelcall", Calls: []int{2}}},
+				{{Op: "unwedge", Mode: kind + "#1"}},
+				{calls("c2", 4)},
+				{{Op: "unwedge", Mode: kind + "#2"}},
+				{calls("c1", 5)},
+				{calls("c2", 6)},
+				{{Op: "unwedge", Mode: kind + "#3"}},
+				{{Op: "stop", Mode: "nodeadline"}},
+			},
+		})
+	}
 	// E: done channels whose receiver shows up late (the caller "keeps receiving", just not yet)
 	ps = append(ps, &Program{
 		Name: "E-late-receivers",
